@@ -3,6 +3,7 @@ package main
 // C18 — wire codecs and stream framing are lossless for every message and chunking.
 
 import (
+	"go/constant"
 	"go/types"
 	"strings"
 
@@ -16,7 +17,7 @@ func init() {
 const snapPath = modPath + "/replication/snapshot"
 
 func checkC18(w *World, r *Report) {
-	r.Decides = "C18 is decided in its structural part only: (a) framing agreement: the snapshot file writes an 8-byte little-endian length prefix of len(payload) and reads an 8-byte little-endian prefix followed by exactly that many bytes, the in-cluster SST stream writes a little-endian uint64 length and the recoverer reads a little-endian uint64; (b) chunking is a plain byte stream: the chunk writer sends chunk[:n] for every n > 0 in order and stops only at EOF, the chunk readers write exactly the chunk's Data, Len mirrors len(Data); (c) pooled message protocol: a message taken from a vtproto pool is reset before every receive inside a loop, is not touched after it was returned to the pool, and its Data is only copied out or written synchronously; (d) codec symmetry: Marshal and Unmarshal try the vtproto arm before the reflection arm, every request/response type of the regattapb service descriptors implements the vtproto pair, and the codec is registered under the name gRPC uses for protobuf; (e) compressor pool discipline in each of the three compressor packages: the pooled writer is Reset onto the new sink before it is handed out and goes back to the pool only in Close after the underlying Close; the pooled reader is Reset onto the new source when reused and goes back to the pool only on EOF."
+	r.Decides = "C18 is decided in its structural part only: (a) framing agreement: the snapshot file writes an 8-byte little-endian length prefix of len(payload) and reads an 8-byte little-endian prefix followed by exactly that many bytes, the in-cluster SST stream writes a little-endian uint64 length and the recoverer reads a little-endian uint64; (b) chunking is a plain byte stream: the chunk writer sends chunk[:n] for every n > 0 in order and stops only at EOF, the chunk readers write exactly the chunk's Data, Len mirrors len(Data); (c) pooled message protocol: a message taken from a vtproto pool is reset before every receive inside a loop, is not touched after it was returned to the pool, and its Data is only copied out or written synchronously; (d) codec symmetry: Marshal and Unmarshal try the vtproto arm before the reflection arm, every request/response type of the regattapb service descriptors implements the vtproto pair, and the codec is registered under the name gRPC uses for protobuf; (e) compressor pool discipline in each of the three compressor packages: the pooled writer is Reset onto the new sink before it is handed out and goes back to the pool only in Close after the underlying Close; the pooled reader is Reset onto the new source when reused and goes back to the pool only on EOF. (g) stream methods are in the method set of what io.Copy is given; (h) chunk, record buffer and codec options fit the other side."
 	r.NotDecided = []string{"value-level round trip of the generated marshal code and of the compression libraries", "concurrency of pooled state beyond the Get/Put protocol"}
 	r.Assume = []string{"encoding/binary, io.ReadFull, vtproto pools and sync.Pool behave as documented"}
 	c18Framing(w, r)
@@ -26,6 +27,101 @@ func checkC18(w *World, r *Report) {
 	c18Compressors(w, r)
 	c18Wiring(w, r)
 	c18CopyPaths(w, r)
+	c18Sizes(w, r)
+}
+
+// c18Sizes: the constants of the two stream framings fit what the other side can take.
+func c18Sizes(w *World, r *Report) {
+	ob := r.Ob("C18.h", "h-sizes-fit", "type-checked constants: the snapshot chunk size plus 64 bytes of message framing is below gRPC's default receive limit of 4 MiB (clients such as the backup command dial with the default); the restore loader's record buffer (a constant-sized make) holds a record of maximum value and key length plus 4 KiB for the table name and field framing; the zstd / snappy / gzip readers and writers are built without size-limiting options", "a chunk of exactly 4 MiB exceeds the default message limit by its framing (ResourceExhausted on the first full chunk); a record buffer sized by value+key limits alone is shorter than the marshalled record (slice bounds panic in the snapshot file's Read); a decoder memory cap below the encoder's window rejects the compressor's own output")
+	constOf := func(rel, name string) (int64, bool) {
+		p := w.Pkg(rel)
+		if p == nil || p.Types == nil {
+			return 0, false
+		}
+		c, ok := p.Types.Scope().Lookup(name).(*types.Const)
+		if !ok {
+			return 0, false
+		}
+		return constant.Int64Val(constant.ToInt(c.Val()))
+	}
+	if cs, ok := constOf("replication/snapshot", "DefaultSnapshotChunkSize"); ok {
+		ob.SiteS("snapshot chunk size " + itoa(int(cs)))
+		if cs+64 > 4*1024*1024 {
+			ob.Violate("chunk-exceeds-default-message-limit", 0, "DefaultSnapshotChunkSize is "+itoa(int(cs))+": with its framing a full chunk is larger than gRPC's default 4 MiB receive limit")
+		}
+	} else {
+		ob.Undecided("anchor/chunk", "DefaultSnapshotChunkSize not found")
+	}
+	mv, ok1 := constOf("storage/table", "MaxValueLen")
+	mk, ok2 := constOf("storage/table/key", "LatestVersionLen")
+	if fn := w.Func("storage/table", "Manager.readIntoTable"); fn != nil && ok1 && ok2 {
+		found := false
+		eachInstr(fn, func(in ssa.Instruction) {
+			var n int64
+			switch x := in.(type) {
+			case *ssa.MakeSlice:
+				if sl, ok := x.Type().Underlying().(*types.Slice); !ok || !isByte(sl.Elem()) {
+					return
+				}
+				k, isC := constInt(x.Len)
+				if !isC {
+					return
+				}
+				n = k
+			case *ssa.Alloc:
+				// make([]byte, constant) is an array allocation that is sliced
+				arr, ok := deref(x.Type()).Underlying().(*types.Array)
+				if !ok || !isByte(arr.Elem()) || !x.Heap || x.Comment != "makeslice" {
+					return
+				}
+				n = arr.Len()
+			default:
+				return
+			}
+			found = true
+			ob.Site(in.Pos(), "restore record buffer of "+itoa(int(n))+" bytes")
+			if n < mv+mk+4096 {
+				ob.Violate("record-buffer-too-small", in.Pos(), "the restore loader reads records into a buffer of "+itoa(int(n))+" bytes, but a record of maximum value ("+itoa(int(mv))+") and key ("+itoa(int(mk))+") length plus table name and framing is longer: the snapshot file's Read slices past the buffer and panics")
+			}
+		})
+		if !found {
+			ob.Undecided("shape/loader", "no constant-sized record buffer in the restore loader")
+		}
+	} else {
+		ob.Undecided("anchor/loader", "restore loader or the size limits not found")
+	}
+	for _, rel := range []string{"regattaserver/encoding/zstd", "regattaserver/encoding/snappy", "regattaserver/encoding/gzip"} {
+		for _, fn := range w.ModFuncs() {
+			top := fn
+			for top.Parent() != nil {
+				top = top.Parent()
+			}
+			if top.Package() == nil || top.Package().Pkg.Path() != modPath+"/"+rel {
+				continue
+			}
+			eachInstr(fn, func(in ssa.Instruction) {
+				c := plainCall(in)
+				if c == nil {
+					return
+				}
+				n := CalleeName(c)
+				if !(strings.HasSuffix(n, ".NewReader") || strings.HasSuffix(n, ".NewWriter")) || !strings.Contains(n, "klauspost") || c.Signature() == nil || !c.Signature().Variadic() {
+					return
+				}
+				ob.Site(in.Pos(), shortName(n)+" in "+FnName(fn))
+				va := c.Args[len(c.Args)-1]
+				if !isNilConst(va) {
+					ob.Violate("codec-options@"+rel, in.Pos(), FnName(fn)+" builds its codec object with options (`"+Expr(va)+"`): a limit on one side that the other side does not honour makes the compressor reject its own output")
+				}
+			})
+		}
+	}
+	ob.NeedFloor(3)
+}
+
+func isByte(t types.Type) bool {
+	b, ok := t.Underlying().(*types.Basic)
+	return ok && (b.Kind() == types.Uint8 || b.Kind() == types.Byte)
 }
 
 // c18CopyPaths: io.Copy uses the chunk-sized transfer the stream types implement.
